@@ -2,15 +2,16 @@
 
 // prop: C08
 // tier: quick
-// name: Minkowski.sum-region Minkowski.diff-region Minkowski.commutes
+// name: Minkowski.sum-region Minkowski.diff-region Minkowski.commutes Minkowski.scaled-region
 // what: (sum-region) a lattice point that is more than 2 units from the boundary of every parallelogram 'pattern edge + path edge' is inside MinkowskiSum64(pattern, path, closed) exactly when it lies in one of those parallelograms (the pattern's boundary reflected through the origin and translated to the point meets the path); (diff-region) the same for MinkowskiDiff64 with the parallelograms 'path edge - pattern edge'; (commutes) for closed paths sum(A,B) and sum(B,A) agree at the points that are far from the parallelogram boundaries of both
-// bound: 1500 (quick) / 50000 (thorough) pseudo-random inputs (pattern: 3-5 vertices on {-8,-4,..,8}^2, path: 2-5 vertices on {0,8,..,40}^2, closed or open, seeded by VERIF_SEED); lattice 2+4k on [-14,54]^2; exact integer parallelogram membership
-// sampled: Minkowski.sum-region Minkowski.diff-region Minkowski.commutes
+// bound: (scaled-region: the same inputs with every coordinate multiplied by 2^k, k drawn from {20, 27, 28, 29, 30, 31}, so that edge cross products pass 2^63 while coordinate sums stay below 2^37; the result's coordinates are divided by 2^k, rounded, and compared with the same exact small-coordinate oracle, sum and difference) 1500 (quick) / 50000 (thorough) pseudo-random inputs (pattern: 3-5 vertices on {-8,-4,..,8}^2, path: 2-5 vertices on {0,8,..,40}^2, closed or open, seeded by VERIF_SEED); lattice 2+4k on [-14,54]^2; exact integer parallelogram membership
+// sampled: Minkowski.sum-region Minkowski.diff-region Minkowski.commutes Minkowski.scaled-region
 
 package go_clipper2
 
 import (
 	"fmt"
+	"math"
 	"math/rand"
 	"os"
 	"strconv"
@@ -126,6 +127,47 @@ func TestVerifBoundedMinkowski(t *testing.T) {
 				report(which, pat, path, closed, out, bad)
 			}
 		}
+		{
+			k := []uint{20, 27, 28, 29, 30, 31}[rng.Intn(6)]
+			S := int64(1) << k
+			scale := func(p Path64) Path64 {
+				q := make(Path64, len(p))
+				for i := range p {
+					q[i] = Point64{p[i].X * S, p[i].Y * S}
+				}
+				return q
+			}
+			for _, sum := range []bool{true, false} {
+				cases["scaled-region"]++
+				sign := int64(1)
+				var big Paths64
+				if sum {
+					big = MinkowskiSum64(scale(pat), scale(path), closed)
+				} else {
+					sign = -1
+					big = MinkowskiDiff64(scale(pat), scale(path), closed)
+				}
+				out := make(Paths64, len(big))
+				for i, p := range big {
+					out[i] = make(Path64, len(p))
+					for j, q := range p {
+						out[i][j] = Point64{int64(math.Round(float64(q.X) / float64(S))), int64(math.Round(float64(q.Y) / float64(S)))}
+					}
+				}
+				ps := build(pat, path, closed, sign)
+				for _, s := range samples {
+					if !farFromParas(s, ps) {
+						continue
+					}
+					want := inParas(s, ps)
+					got := vcWindAll(s, out) != 0
+					if got != want {
+						report("scaled-region", scale(pat), scale(path), closed, big, fmt.Sprintf("sum=%v scale 2^%d: at %v*2^%d inside-result=%v, want %v", sum, k, s, k, got, want))
+						break
+					}
+				}
+			}
+		}
 		if closed && len(pat) >= 3 {
 			cases["commutes"]++
 			ab := MinkowskiSum64(append(Path64{}, pat...), append(Path64{}, path...), true)
@@ -139,7 +181,7 @@ func TestVerifBoundedMinkowski(t *testing.T) {
 			}
 		}
 	}
-	for _, w := range []string{"sum-region", "diff-region", "commutes"} {
+	for _, w := range []string{"sum-region", "diff-region", "commutes", "scaled-region"} {
 		fmt.Printf("VERIF-BOUNDED Minkowski.%s cases=%d failures=%d\n", w, cases[w], fails[w])
 	}
 }
